@@ -540,6 +540,21 @@ class BasicContiguousVector<cntgs::Options<Option...>, Parameter...>
         locator_ = std::move(other_locator);
     }
 
+    template <class... TOption, std::size_t... I>
+    constexpr bool has_equal_fixed_sizes(
+        const cntgs::BasicContiguousVector<cntgs::Options<TOption...>, Parameter...>& other,
+        std::index_sequence<I...>) const noexcept
+    {
+        return ((get_fixed_size<I>() == other.template get_fixed_size<I>()) && ...);
+    }
+
+    template <class... TOption>
+    constexpr bool has_equal_fixed_sizes(
+        const cntgs::BasicContiguousVector<cntgs::Options<TOption...>, Parameter...>& other) const noexcept
+    {
+        return has_equal_fixed_sizes(other, std::make_index_sequence<ListTraits::CONTIGUOUS_FIXED_SIZE_COUNT>{});
+    }
+
     template <class... TOption>
     constexpr auto equal(const cntgs::BasicContiguousVector<cntgs::Options<TOption...>, Parameter...>& other) const
     {
@@ -549,7 +564,7 @@ class BasicContiguousVector<cntgs::Options<Option...>, Parameter...>
             {
                 return other.empty();
             }
-            if (other.empty())
+            if (other.empty() || !has_equal_fixed_sizes(other))
             {
                 return false;
             }
